@@ -213,3 +213,9 @@ def _language_walk(ctx):
 def stages(ctx):
     return [Stage("language_walk", "enum", cases=_language_walk(ctx), exhaustive=False),
             Stage("texts", "hyp", strategy=cases(), examples=ctx.n(12000, 300000))]
+
+
+def extra_phase(ctx, known, total):
+    """thorough tier: coverage-guided campaign (atheris/libFuzzer over the same strategy and oracle)"""
+    from vlib import coverage_stage
+    return coverage_stage.run(ctx, known, total, ID, ctx.n(0, 5000))
